@@ -28,7 +28,7 @@ GEN = [
     ('C14GenProbes', T.tr_probes),
     ('C14GenLine', T.tr_line),
 ]
-DYN_LEVELS = [['C14_TieGeom', 'C14_TieSplit', 'C14_TieProbes', 'C14_TieLine'], ['C14_TieFinder']]
+DYN_LEVELS = [['C14_TieGeom', 'C14_TieSplit', 'C14_TieProbes', 'C14_TieLine'], ['C14_TieFinder'], ['C14_TieQuad']]
 
 
 def regenerate(ctx):
